@@ -120,6 +120,14 @@ def zeros_like_tree(v):
     return onp.zeros(onp.shape(v))
 
 
+def leaves_of(v):
+    if isinstance(v, (tuple, list)):
+        return [l for e in v for l in leaves_of(e)]
+    if isinstance(v, dict):
+        return [l for e in v.values() for l in leaves_of(e)]
+    return [v]
+
+
 def is_exact_zero_of(got, like):
     """got has exactly the structure of `like` and all entries are exactly 0.0 (no NaN)."""
     if isinstance(like, dict):
@@ -187,7 +195,14 @@ def const_body(c):
             got, want = autograd.hessian(fa)(x), onp.zeros(in_shape + in_shape)
         elif op == "make_vjp":
             vjp, val = autograd.make_vjp(fa)(x)
-            got, want = vjp(zeros_like_tree(y0) if not scalar_out else 1.0), zx
+            cot = zeros_like_tree(y0) if not scalar_out else 1.0
+            first = vjp(cot)
+            # the caller owns what it was given: updating a returned gradient in place must not change what the same
+            # function returns next (each call returns a fresh exact zero)
+            for leaf in leaves_of(first):
+                if isinstance(leaf, onp.ndarray) and leaf.size and leaf.flags.writeable:
+                    leaf += 1.0
+            got, want = vjp(cot), zx
         elif op == "make_jvp":
             val, got = autograd.make_jvp(fa)(x)(tangent_like(x, vseed))
             want = zy
@@ -200,6 +215,10 @@ def const_body(c):
                 return fail("primal_mismatch", f"aux {aux!r}", bucket("aux"), sample=sample)
         elif op == "make_hvp":
             hvp, g = autograd.make_hvp(fa)(x)
+            first = hvp(tangent_like(x, vseed))
+            for leaf in leaves_of(first):
+                if isinstance(leaf, onp.ndarray) and leaf.size and leaf.flags.writeable:
+                    leaf -= 2.0
             got, want = hvp(tangent_like(x, vseed)), zx
             if not is_exact_zero_of(g, zx):
                 return fail("nonzero", f"make_hvp gradient {g!r:.100}", bucket("nonzero"), sample=sample)
